@@ -94,6 +94,10 @@ AMPS = [0, 0, 1, 1, 1, 0.5, 2, 1.5, 0.25, 3]
 
 
 def rnd_amp(rng, m, n):
+    if rng.random() < 0.07:            # a pupil that is a single transmitting pixel, anywhere
+        a = [[0] * n for _ in range(m)]
+        a[rng.randrange(m)][rng.randrange(n)] = rng.choice([1, 0.5, 2, 1.5, 3])
+        return a
     while True:
         a = [[rng.choice(AMPS) for _ in range(n)] for _ in range(m)]
         t = rng.random()
@@ -142,6 +146,33 @@ def gen_prop(rng, tier):
             if not any(v != 0 for row in c['amp'] for v in row):
                 c['amp'][0][0] = 1
         c['power'] = rng.choice(['1', '2', '1/2', '5', '0.75', '100', '9', '1/16'])
+    return c
+
+
+SUBPX = ['0.3', '0.45', '0.5', '0.7', '-0.3', '-0.45', '-0.6', '0.35', '-0.7']
+
+
+def add_between(rng, c):
+    """calls made between two identical nested-window checks: none of them may change what the ordinary centred,
+    untilted propagation returns afterwards"""
+    os_ = c['os']
+    full = [c['npix'][0], c['npix'][1]]
+    btw = []
+    for _ in range(rng.randint(1, 3)):
+        k = rng.choice(['tilt', 'tilt', 'mask', 'dft2'])
+        win = rng.randrange(3)
+        if k == 'tilt':
+            btw.append({'kind': 'tilt', 'via': rng.choice(['plane', 'wavefront']), 'win': win,
+                        'fx': rng.choice(SUBPX), 'fy': rng.choice(SUBPX + ['0']), 'repeat': rng.randint(1, 5)})
+        elif k == 'mask':
+            w = c['wins'][win]
+            room = [(full[0] - w[0]) * os_, (full[1] - w[1]) * os_]
+            # top-left corner of the read-out region inside the full output plane (anywhere it fits)
+            btw.append({'kind': 'mask', 'win': win, 'r0': rng.randint(0, room[0]), 'c0': rng.randint(0, room[1])})
+        else:
+            btw.append({'kind': 'dft2', 'win': win, 'shr': rng.choice(SUBPX + ['2', '-1.25']),
+                        'shc': rng.choice(SUBPX + ['0', '1.5']), 'repeat': rng.randint(1, 3)})
+    c['between'] = btw
     return c
 
 
@@ -216,6 +247,14 @@ def generate(rng, tier):
             continue
         out += 1
         yield c
+    n_dh = 30 if tier == 'quick' else 300
+    out = 0
+    while out < n_dh:            # nested windows - shifted / masked / tilted calls on the same shapes - nested windows again
+        c = gen_prop(rng, tier)
+        if case_L(c) > MAXL or not alpha_ok(c):
+            continue
+        out += 1
+        yield add_between(rng, c)
     out = 0
     while out < n_cases:
         if rng.random() < 0.8:
@@ -233,7 +272,8 @@ def classify(c):
         r, q = c['npix']
         return 'ffthist/%s/%s' % ('wide' if q > r else 'tall' if q < r else 'square', 'dirty' if c['dirty'] else 'clean')
     if c['op'] == 'prop':
-        return 'prop/os%d/%s/%s' % (c['os'], c['aniso'], 'norm' if c.get('power') else 'raw')
+        return 'prop/os%d/%s/%s%s' % (c['os'], c['aniso'], 'norm' if c.get('power') else 'raw',
+                                      '/history' if c.get('between') else '')
     return c['op']
 
 
@@ -335,6 +375,7 @@ def decode(c, ints):
 # ------------------------------------------------------------------ implementation side (public API only)
 def run_impl(c):
     lentil = C.import_lentil()
+    fresh_state(lentil)
     try:
         if c['op'] == 'normalize':
             a = np.array([[complex(v[0], v[1]) for v in row] for row in c['a']], dtype=complex)
@@ -351,25 +392,91 @@ def run_impl(c):
         if c.get('power'):
             amp = lentil.normalize_power(amp, float(Fraction(c['power'])))
         opd = lam * np.array(c['ph'], dtype=float) / c['phden']
-        pupil = lentil.Pupil(amplitude=amp, opd=opd, pixelscale=fdx, focal_length=float(z))
-        w = lentil.Wavefront(lam) * pupil
+
+        def wavefront(tilt=None, via='plane'):
+            pupil = lentil.Pupil(amplitude=amp, opd=opd, pixelscale=fdx, focal_length=float(z))
+            if tilt is not None and via == 'wavefront':
+                return lentil.Wavefront(lam, tilt=list(tilt)) * pupil
+            w_ = lentil.Wavefront(lam) * pupil
+            if tilt is not None:
+                w_ = w_ * lentil.Tilt(x=tilt[0], y=tilt[1])
+            return w_
+
+        w = wavefront()
         res = {'pin_amp': float(np.sum(np.abs(amp) ** 2)), 'pin_field': float(np.sum(np.abs(w.field) ** 2)),
-               'pin_intensity': float(np.sum(w.intensity)), 'dft': [], 'dft_prop': [], 'fft': [], 'shapes': [], 'min': 0.0}
-        mn = 0.0
-        for s in c['wins']:
-            s = (int(s[0]), int(s[1]))
-            i1 = lentil.propagate_dft(w, pixelscale=fdu, shape=s, oversample=os_).intensity
-            i2 = lentil.propagate_dft(w, pixelscale=fdu, shape=tuple(c['npix']), prop_shape=s, oversample=os_).intensity
-            i3 = lentil.propagate_fft(w, pixelscale=fdu, shape=s, oversample=os_).intensity
-            res['dft'].append(float(np.sum(i1)))
-            res['dft_prop'].append(float(np.sum(i2)))
-            res['fft'].append(float(np.sum(i3)))
-            res['shapes'].append([list(i1.shape), list(i2.shape), list(i3.shape)])
-            mn = min(mn, float(np.min(i1)), float(np.min(i2)), float(np.min(i3)))
-        res['min'] = mn
+               'pin_intensity': float(np.sum(w.intensity))}
+        res.update(window_energies(lentil, c, w, fdu, os_))
+        if c.get('between'):
+            res['between'] = [run_between(lentil, c, b, wavefront, fdu, float(z), os_) for b in c['between']]
+            res['after'] = window_energies(lentil, c, wavefront(), fdu, os_)
         return res
     except Exception as e:
         return {'err': type(e).__name__, 'msg': str(e)[:200]}
+
+
+def fresh_state(lentil):
+    """every case starts as if it were the first call of the process: memoised helpers of the library are emptied
+    (state carried between calls is exercised deliberately, inside the history cases)"""
+    import sys
+    for name, mod in list(sys.modules.items()):
+        if name == 'lentil' or name.startswith('lentil.'):
+            for v in list(vars(mod).values()):
+                cc = getattr(v, 'cache_clear', None)
+                if callable(cc):
+                    try:
+                        cc()
+                    except Exception:
+                        pass
+
+
+def window_energies(lentil, c, w, fdu, os_):
+    res = {'dft': [], 'dft_prop': [], 'fft': [], 'shapes': [], 'min': 0.0}
+    mn = 0.0
+    for s in c['wins']:
+        s = (int(s[0]), int(s[1]))
+        i1 = lentil.propagate_dft(w, pixelscale=fdu, shape=s, oversample=os_).intensity
+        i2 = lentil.propagate_dft(w, pixelscale=fdu, shape=tuple(c['npix']), prop_shape=s, oversample=os_).intensity
+        i3 = lentil.propagate_fft(w, pixelscale=fdu, shape=s, oversample=os_).intensity
+        res['dft'].append(float(np.sum(i1)))
+        res['dft_prop'].append(float(np.sum(i2)))
+        res['fft'].append(float(np.sum(i3)))
+        res['shapes'].append([list(i1.shape), list(i2.shape), list(i3.shape)])
+        mn = min(mn, float(np.min(i1)), float(np.min(i2)), float(np.min(i3)))
+    res['min'] = mn
+    return res
+
+
+def run_between(lentil, c, b, wavefront, fdu, z, os_):
+    """one disturbing call (possibly repeated); returns totals and minima of what it produced"""
+    s = (int(c['wins'][b['win']][0]), int(c['wins'][b['win']][1]))
+    full = (int(c['npix'][0]), int(c['npix'][1]))
+    tot, mn = [], 0.0
+    if b['kind'] == 'tilt':
+        # angles giving fx / fy output samples of image motion
+        tx = float(Fraction(b['fx'])) * fdu[1] / (z * os_)
+        ty = float(Fraction(b['fy'])) * fdu[0] / (z * os_)
+        for _ in range(b['repeat']):
+            img = lentil.propagate_dft(wavefront((tx, ty), b['via']), pixelscale=fdu, shape=s, oversample=os_).intensity
+            tot.append(float(np.sum(img)))
+            mn = min(mn, float(np.min(img)))
+    elif b['kind'] == 'mask':
+        mask = np.zeros((full[0] * os_, full[1] * os_))
+        mask[b['r0']:b['r0'] + s[0] * os_, b['c0']:b['c0'] + s[1] * os_] = 1
+        img = lentil.propagate_dft(wavefront(), pixelscale=fdu, shape=full, oversample=os_, mask=mask).intensity
+        tot.append(float(np.sum(img)))
+        mn = min(mn, float(np.min(img)))
+    else:
+        w = wavefront()
+        alpha = (1.0 / (full[0] * os_), 1.0 / (full[1] * os_))
+        for _ in range(b['repeat']):
+            t = 0.0
+            for fld in w.data:
+                F = lentil.fourier.dft2(fld.data, alpha, shape=(s[0] * os_, s[1] * os_),
+                                        shift=(float(Fraction(b['shr'])), float(Fraction(b['shc']))),
+                                        offset=fld.offset, unitary=True)
+                t += float(np.sum(np.abs(F) ** 2))
+            tot.append(t)
+    return {'totals': tot, 'min': mn}
 
 
 def run_hist(lentil, c, fdx, fdu, z, lam0, os_):
@@ -449,11 +556,14 @@ def compare(c, impl, model):
         return 'harness: model energies are not real'
     if not close(impl['pin_field'], model['pin']):
         return f'input power sum|field|^2: implementation {impl["pin_field"]!r}, model {model["pin"]!r}'
-    for name in ('dft', 'dft_prop'):
-        for k, (ei, em) in enumerate(zip(impl[name], model['E'])):
-            if abs(ei - em) > TOL * (abs(model['pin']) + 1e-300):
-                return (f'energy in window {c["wins"][k]} x oversample {c["os"]} ({name} path): implementation {ei!r}, '
-                        f'model {em!r}')
+    for phase, r in (('', impl), (' after the intermediate calls', impl.get('after'))):
+        if r is None:
+            continue
+        for name in ('dft', 'dft_prop'):
+            for k, (ei, em) in enumerate(zip(r[name], model['E'])):
+                if abs(ei - em) > TOL * (abs(model['pin']) + 1e-300):
+                    return (f'energy in window {c["wins"][k]} x oversample {c["os"]} ({name} path{phase}): '
+                            f'implementation {ei!r}, model {em!r}')
     return None
 
 
@@ -475,28 +585,54 @@ def oracle(c, impl):
     if not close(pin, impl['pin_amp'], 1e-12) or not close(pin, impl['pin_intensity'], 1e-12):
         return (f'pupil-plane power: sum amplitude^2 = {impl["pin_amp"]!r}, sum|field|^2 = {pin!r}, '
                 f'sum intensity = {impl["pin_intensity"]!r}')
+    msg = window_predicates(c, impl, pin, p, '')
+    if msg:
+        return msg
+    if c.get('between'):
+        for b, r in zip(c['between'], impl['between']):
+            what = f'intermediate call {b}'
+            if r['min'] < 0:
+                return f'{what}: negative intensity sample {r["min"]!r}'
+            for t in r['totals']:
+                if t < 0 or t > pin * (1 + TOL):
+                    return f'{what}: a window inside one period captures {t!r}, input power {pin!r}'
+                sub = all(abs(Fraction(b.get(k, '0'))) < 1 for k in ('fx', 'fy'))
+                if b['win'] == 2 and (b['kind'] == 'dft2' or (b['kind'] == 'tilt' and sub)) and not close(t, pin):
+                    return f'{what}: total over one full period {t!r} differs from the input power {pin!r}'
+        msg = window_predicates(c, impl['after'], pin, p, ' (same calls repeated after the intermediate calls ' + str(c['between']) + ')')
+        if msg:
+            return msg
+        for name in ('dft', 'dft_prop', 'fft'):
+            for k, (ea, eb) in enumerate(zip(impl[name], impl['after'][name])):
+                if abs(ea - eb) > TOL * pin:
+                    return (f'{name} path: window {c["wins"][k]} captured {ea!r} when called first and {eb!r} when the same '
+                            f'call was repeated after the intermediate calls {c["between"]}')
+    return None
+
+
+def window_predicates(c, impl, pin, p, where):
     if impl['min'] < 0:
-        return f'negative intensity sample {impl["min"]!r}'
+        return f'negative intensity sample {impl["min"]!r}{where}'
     os_ = c['os']
     for k, sh in enumerate(impl['shapes']):
         exp = [[c['wins'][k][0] * os_, c['wins'][k][1] * os_], [c['npix'][0] * os_, c['npix'][1] * os_],
                [c['wins'][k][0] * os_, c['wins'][k][1] * os_]]
         if sh != exp:
-            return f'output shapes {sh} instead of {exp}'
+            return f'output shapes {sh} instead of {exp}{where}'
     for name in ('dft', 'dft_prop', 'fft'):
         E = impl[name]
         if not close(E[-1], pin):
             return (f'{name} path: total intensity over one full period {E[-1]!r} differs from the input power {pin!r} '
-                    f'(period {c["npix"][0] * os_}x{c["npix"][1] * os_}, oversample {os_})')
+                    f'(period {c["npix"][0] * os_}x{c["npix"][1] * os_}, oversample {os_}){where}')
         if p is not None and not close(E[-1], p):
-            return f'{name} path: normalised amplitude with target {p} images to total {E[-1]!r}'
+            return f'{name} path: normalised amplitude with target {p} images to total {E[-1]!r}{where}'
         slack = 1e-12 * pin
         for k in range(len(E)):
             if E[k] < 0:
-                return f'{name} path: negative energy {E[k]!r} in window {c["wins"][k]}'
+                return f'{name} path: negative energy {E[k]!r} in window {c["wins"][k]}{where}'
             if E[k] > pin * (1 + TOL):
-                return f'{name} path: window {c["wins"][k]} captures {E[k]!r} > input power {pin!r}'
+                return f'{name} path: window {c["wins"][k]} captures {E[k]!r} > input power {pin!r}{where}'
             if k and E[k - 1] > E[k] + slack:
                 return (f'{name} path: window {c["wins"][k - 1]} captures {E[k - 1]!r}, more than the window '
-                        f'{c["wins"][k]} containing it ({E[k]!r})')
+                        f'{c["wins"][k]} containing it ({E[k]!r}){where}')
     return None
